@@ -102,6 +102,8 @@ def run_cli(cli, r, scen, text, lib_convert, workdir, idx):
         outpath = os.path.join(d, "out.svg")
         if "unwritable" in fault:
             outpath = os.path.join(d, "no-such-dir", "out.svg")
+            if os.path.exists("/dev/full") and r.random() < 0.4:
+                outpath = "/dev/full"          # can be opened, cannot be written: every write fails (no space left on device)
         elif r.random() < 0.5:
             # the output file already exists and is longer than the document: "-o" replaces it
             with open(outpath, "wb") as f:
@@ -111,7 +113,7 @@ def run_cli(cli, r, scen, text, lib_convert, workdir, idx):
     p = subprocess.run([cli] + argv, input=stdin if stdin is not None else b"", stdout=subprocess.PIPE,
                        stderr=subprocess.PIPE, timeout=900)
     lib = lib_convert(text, st).encode("utf-8")
-    file_exists = 1 if (outpath and os.path.exists(outpath)) else 0
+    file_exists = 1 if (outpath and outpath != "/dev/full" and os.path.exists(outpath)) else 0      # (a device is not an output file)
     file_sha = ""
     if file_exists:
         with open(outpath, "rb") as f:
